@@ -37,6 +37,10 @@ MUTANTS = [
     ("m52", "abstract.py", "return [-c for c in cost] if isinstance(cost, list) else -cost", "return [c for c in cost] if isinstance(cost, list) else -cost", [A + "_fcn"], True),
     ("m53", "abstract.py", "cost = np.dot(cost, self._task.objective_weights) if", "cost = np.dot(cost, cost) if", [A + "_init_agent"], True),
     ("h61", "abstract.py", "cost = np.dot(cost, self._task.objective_weights) if", "cost = np.dot(self._task.objective_weights, cost) if", [A + "_init_agent"], False),
+    ("m54", "models.py", "return [item for v in self.variables for item in (v.get() if v.has_children() else [v.get()])]", "return [item for v in self.variables[::-1] for item in (v.get() if v.has_children() else [v.get()])]", [P + "models.Task.get_variables"], True),
+    ("m55", "models.py", "solution = [item for v in self.variables for item in (v.randomize() if v.has_children() else [v.randomize()])]", "solution = [item for v in self.variables[1:] for item in (v.randomize() if v.has_children() else [v.randomize()])]", [P + "models.Task.empty_solution"], True),
+    ("m56", "models.py", 'kwargs["space_dimension"] = sum([v.size() for v in variables])', 'kwargs["space_dimension"] = len(variables)', [P + "models.Task.__init__"], True),
+    ("m57", "models.py", "            lb.extend(lb_ if v.has_children() else [lb_])\n            ub.extend(ub_ if v.has_children() else [ub_])", "            lb.extend(lb_ if v.has_children() else [lb_])\n            ub.extend(lb_ if v.has_children() else [lb_])", [P + "models.Task.get_bounds"], True),
     ("h60", "helpers.py", "    pop_new = population.copy()\n    pop_new.sort(", "    sorted_population = population.copy()\n    pop_new = sorted_population\n    pop_new.sort(", [H + "sort_by_cost"], False),
 ]
 RUNNER = r'''
